@@ -25,6 +25,7 @@ type Recorder struct {
 	Assumptions []string
 
 	evaluations int64
+	distinctN   int64 // distinct non-trivial cases counted without hashing (enumerations: distinct by construction)
 	distinct    map[uint64]struct{}
 	samples     []any
 	labels      map[string]int64
@@ -61,6 +62,24 @@ func (r *Recorder) Case(shape string, nontrivial bool, sample func() any) {
 	if len(r.samples) < maxSamples && sample != nil {
 		r.samples = append(r.samples, sample())
 	}
+}
+
+// Enumerated counts n executed cases of which nontrivial are non-trivial; the caller
+// guarantees they are pairwise distinct (an enumeration without repetition).
+func (r *Recorder) Enumerated(n, nontrivial int64) {
+	r.mu.Lock()
+	r.evaluations += n
+	r.distinctN += nontrivial
+	r.mu.Unlock()
+}
+
+// Sample adds a sample case if there is still room.
+func (r *Recorder) Sample(s any) {
+	r.mu.Lock()
+	if len(r.samples) < maxSamples {
+		r.samples = append(r.samples, s)
+	}
+	r.mu.Unlock()
 }
 
 // Label counts an occurrence of a generator-health label.
@@ -117,6 +136,7 @@ type shardFile struct {
 	Assumptions []string          `json:"assumptions"`
 	Evaluations int64             `json:"evaluations"`
 	Distinct    []string          `json:"distinct"`
+	DistinctN   int64             `json:"distinct_n"`
 	Samples     []any             `json:"samples"`
 	Labels      map[string]int64  `json:"labels"`
 	Known       map[string]int64  `json:"known"`
@@ -136,7 +156,7 @@ func (r *Recorder) Flush() {
 		return
 	}
 	sf := shardFile{Property: r.Property, Level: r.Level, Rule: r.Rule, Assumptions: r.Assumptions,
-		Evaluations: r.evaluations, Samples: r.samples, Labels: r.labels, Known: r.known, KnownWhat: r.knownWhat,
+		Evaluations: r.evaluations, DistinctN: r.distinctN, Samples: r.samples, Labels: r.labels, Known: r.known, KnownWhat: r.knownWhat,
 		Extra: r.extra, Exhaustive: r.exhaustive, Violations: r.violations, WallS: time.Since(r.start).Seconds()}
 	for k := range r.distinct {
 		sf.Distinct = append(sf.Distinct, strconv.FormatUint(k, 16))
